@@ -53,6 +53,7 @@ type room struct {
 	loose   []string // message tips not yet merged back
 	now     time.Time
 	allowed string // room ID named by restricted join rules
+	local   string // local part of the room ID (versions with domains in room IDs)
 	// capabilities of the version
 	canKnock, canRestrict, canKnockRestrict bool
 }
@@ -449,7 +450,11 @@ func (rm *room) bootstrap() error {
 	if !rm.priv {
 		content["creator"] = creator.id
 	}
-	rm.roomID = fmt.Sprintf("!room:%s", creator.srv.Name)
+	local := rm.local
+	if local == "" {
+		local = "room"
+	}
+	rm.roomID = fmt.Sprintf("!%s:%s", local, creator.srv.Name)
 	n := rm.tryAdd(creator, spec.MRoomCreate, world.Str(""), content)
 	if n == nil {
 		return fmt.Errorf("create event refused")
@@ -635,4 +640,17 @@ func (rm *room) generate(minSteps, maxSteps int) error {
 		rm.step(i)
 	}
 	return nil
+}
+
+// sibling creates a small second room on the same servers.
+func (rm *room) sibling() *room {
+	o := *rm
+	o.nodes, o.order, o.tip, o.loose, o.local = map[string]*node{}, nil, nil, nil, "other"
+	if err := o.bootstrap(); err != nil {
+		return nil
+	}
+	o.tryAdd(o.users[0], "org.example.thing", world.Str("elsewhere"), map[string]any{"v": 1})
+	o.addMessage(o.users[0], 0)
+	rm.now = o.now
+	return &o
 }
